@@ -273,6 +273,26 @@ mod verif_driver_compile {
     }
 
     #[test]
+    fn metadata_text_never_panics() {
+        let mut n = 0;
+        for pad in 0..=70usize {
+            for tail in ["", "\u{e9}\u{e9}\u{e9}", "\u{20ac}\u{20ac}\u{20ac}", "\u{1f600}\u{1f600}", "abc"] {
+                for reps in [1usize, 3] {
+                    n += 1;
+                    let text = format!("{}{}", "x".repeat(pad), tail).repeat(reps);
+                    let mut tx = empty_tx();
+                    tx.metadata.push(tir::Metadata { key: num(674), value: tir::Expression::String(text.clone()) });
+                    if let Err(p) = quiet(|| compile_auxiliary_data(&tx)) {
+                        witness("c14_cardano/compile_auxiliary_data#reachable-panic", "compile_auxiliary_data", format!("metadata text of {} bytes ({} chars), pad {pad}, tail {tail:?} x{reps}", text.len(), text.chars().count()), format!("panic:{p}"), "Ok or Err");
+                    }
+                }
+            }
+        }
+        println!("VERIF-CASES fn=compile_auxiliary_data n={n}");
+        println!("VERIF-CASES fn=expr_into_metadatum n={n}");
+    }
+
+    #[test]
     fn compile_auxiliary_data_contract() {
         let mut n = 0;
         for a in boundary() {
@@ -458,6 +478,19 @@ mod verif_driver_compile {
             let d = adhoc("vote_delegation_certificate", kv);
             if let Err(p) = quiet(|| compile_vote_delegation_certificate(&d, Network::Mainnet)) {
                 witness("c14_cardano/compile_vote_delegation_certificate#reachable-panic", "compile_vote_delegation_certificate", name.to_string(), format!("panic:{p}"), "Ok or Err");
+            }
+        }
+        // drep values of every length 0..=40 and every kind of leading byte (a raw key hash may begin with any byte)
+        for len in 0..=40usize {
+            for lead in [0x00u8, 0x01, 0x22, 0x23, 0xe0, 0xff] {
+                n += 1;
+                let mut b = vec![7u8; len];
+                if len > 0 { b[0] = lead; }
+                let d = adhoc("vote_delegation_certificate", vec![("stake", tir::Expression::String(STAKE.to_string())), ("drep", tir::Expression::Bytes(b))]);
+                match quiet(|| compile_vote_delegation_certificate(&d, Network::Mainnet)) {
+                    Err(p) => witness("c14_cardano/compile_vote_delegation_certificate#reachable-panic", "compile_vote_delegation_certificate", format!("drep of {len} bytes starting with {lead:#04x}"), format!("panic:{p}"), "Ok or Err"),
+                    Ok(r) => if len == 28 && r.is_err() { witness("c14_cardano/compile_vote_delegation_certificate#postcondition", "compile_vote_delegation_certificate", format!("drep of 28 bytes starting with {lead:#04x}"), "Err".into(), "a 28-byte key hash is accepted whatever its first byte"); },
+                }
             }
         }
         println!("VERIF-CASES fn=compile_vote_delegation_certificate n={n}");
